@@ -96,7 +96,8 @@ theorem shorthand_is_include (comps : List (Str × Str)) (tag file : Str) (attrs
 theorem conditional_include_is_include (W : World) (f : Nat) (ctx : Ctx) (st : St) (attrs : List Attr) (kids : List Node)
     (hfor : getAttr attrs (S "v-for") = []) (hinc : hasAttr attrs (S "include") = true) :
     evalAsElement W (f + 1) ctx st (S "template") attrs kids = evalTemplate W f ctx st attrs kids := by
-  simp [evalAsElement, hfor, hinc]
+  have hne : (S "template" == S "slot") = false := by decide
+  simp [evalAsElement, hfor, hinc, hne]
 
 /-- ... and what it renders is the included component: the include path of `evalTemplate` -/
 theorem conditional_include_renders_component (W : World) (f : Nat) (ctx : Ctx) (st : St) (attrs : List Attr) (kids : List Node)
